@@ -28,3 +28,5 @@
 (assert (forall ((c Int)) (! (=> (= (constKind c) 4) (= (constToFloat c) c)) :pattern ((constToFloat c)))))
 (assert (forall ((c Int)) (! (= (constKind (constToFloat c)) (ite (or (= (constKind c) 3) (= (constKind c) 4)) 4 (constKind (constToFloat c)))) :pattern ((constToFloat c)))))
 (assert (forall ((x Int)) (! (=> (assertok_go_constant_Value x) (not (= (assert_go_constant_Value x) 0))) :pattern ((assert_go_constant_Value x)))))  ; a successful x.(constant.Value) yields a non-nil interface value
+(declare-fun creal (Int) Int)   ; real(c) of a complex value (the engine's builtin)
+(declare-fun cimag (Int) Int)   ; imag(c)
